@@ -182,9 +182,9 @@ def main():
             if (k // 3) % 2 == 0:
                 n, x = max(n, 4), min(x, 2)
                 emitted = len(range(0, n, x)) + 1
-                pre, ignore = rng.choice(['-n 1 ', '-x 7 -n 1 ']), emitted - 1
+                pre, ignore = ['-n 1 ', '-n1 ', '-x 7 -n 1 ', '-x7 -n1 '][(k // 6) % 4], emitted - 1      # also in the attached spelling -n1
             else:
-                pre, ignore = rng.choice(['-n 30 -x 1 ', '-n 40 ']), rng.choice([-1, -2])
+                pre, ignore = ['-n 30 -x 1 ', '-n40 ', '-n 40 ', '-n30 -x1 '][(k // 6) % 4], rng.choice([-1, -2])
         res, runs, left, args = run_case(ck, bindir_real, text_units, train_units, n, x, seed, nruns, njobs, ignore, None, 'Colloc0', 'colloc0', pre)
         desc = {'text': gens.lines(text_units), 'train': None if train_units is None else gens.lines(train_units), 'args': args,
                 'nruns': nruns, 'njobs': njobs, 'ignore_first_parses': ignore, 'family': 'colloc0-%s' % ['self', 'same', 'disjoint'][mode]}
